@@ -84,7 +84,11 @@ pub fn check_v5(enc: &v5::codec::Encoded, payload_len: usize, limit: u32, no_pro
     let inp = || json!({"ver": 5, "limit": limit, "no_problem_info": no_problem_info, "value": format!("{enc:?}").chars().take(1500).collect::<String>()});
     let codec = v5::codec::Codec::new();
     if limit != 0 {
-        codec.set_max_outbound_size(limit);
+        // (the setter is library code too: a panic in it is a finding, not the end of the check)
+        if let Err(p) = std::panic::catch_unwind(std::panic::AssertUnwindSafe(|| codec.set_max_outbound_size(limit))) {
+            out.push(fnd("panic", "v5 Codec::set_max_outbound_size".to_string(), format!("setting the outbound limit {limit} panicked: {}", crate::libconv::panic_msg(p)), inp()));
+            return;
+        }
     }
     if no_problem_info {
         // the public way to switch problem information off: decode a CONNECT that declines it
@@ -152,7 +156,10 @@ pub fn check_v5(enc: &v5::codec::Encoded, payload_len: usize, limit: u32, no_pro
             let c2 = v5::codec::Codec::new();
             let mut src = BytesMut::copy_from_slice(&bytes);
             let (_, _, rl) = rf::frame(&bytes).unwrap();
-            match c2.decode(&mut src) {
+            crate::check::b_enter("v5 Codec::decode (of the library's own output)", &bytes);
+            let back = c2.decode(&mut src);
+            crate::check::b_leave();
+            match back {
                 Ok(Some(v5::codec::Decoded::Packet(_, sz))) | Ok(Some(v5::codec::Decoded::Publish(_, _, sz))) => {
                     if sz as usize != rl {
                         out.push(fnd("size", format!("v5 {k}"), format!("reported size {sz}, Remaining Length {rl}"), inp()));
@@ -226,7 +233,10 @@ pub fn check_v3(enc: &v3::codec::Encoded, payload_len: usize, max_size: u32, out
     let k = kind(&want);
     let inp = || json!({"ver": 3, "limit": max_size, "value": format!("{enc:?}").chars().take(1500).collect::<String>()});
     let codec = v3::codec::Codec::new();
-    codec.set_max_size(max_size);
+    if let Err(p) = std::panic::catch_unwind(std::panic::AssertUnwindSafe(|| codec.set_max_size(max_size))) {
+        out.push(fnd("panic", "v3 Codec::set_max_size".to_string(), format!("setting the limit {max_size} panicked: {}", crate::libconv::panic_msg(p)), inp()));
+        return;
+    }
     match enc_v3(&codec, enc.clone()) {
         EncOut::Panic(m) => out.push(fnd("panic", format!("v3 {k} encode"), format!("encode panicked: {m}"), inp())),
         EncOut::Err(e, left) => {
